@@ -26,6 +26,7 @@ import (
 	"sort"
 	"strconv"
 	"strings"
+	"time"
 
 	"github.com/tonkeeper/tongo/boc"
 	"github.com/tonkeeper/tongo/code"
@@ -48,6 +49,8 @@ func init() {
 	execs["c08.vmstack"] = execC08Vmstack
 	execs["c08.methods"] = execC08Methods
 	execs["c08.accproof"] = execC08Accproof
+	execs["c08.tlbgo"] = execC08TlbGo
+	execs["c08.vmtlgo"] = execC08VmTlGo
 	gens["C08"] = genC08
 	for _, t := range c08TlbTypes {
 		if d := c08Derive(t, ""); d != nil {
@@ -593,6 +596,9 @@ var c08TlbTypes = []reflect.Type{
 	reflect.TypeOf(tlb.Hashmap[tlb.Uint19, boc.Cell]{}), reflect.TypeOf(tlb.MerkleProof[C08Small]{}),
 	reflect.TypeOf(tlb.MerkleUpdate[C08Small]{}), reflect.TypeOf(tlb.BinTree[tlb.Uint8]{}),
 	reflect.TypeOf(tlb.HashmapAugE[tlb.Bits256, tlb.Uint8, tlb.Uint8]{}), reflect.TypeOf(tlb.McStateExtra{}),
+	reflect.TypeOf(tlb.Grams(0)), reflect.TypeOf(tlb.VarUInteger32{}), reflect.TypeOf(tlb.SnakeData{}), reflect.TypeOf(tlb.Text("")),
+	reflect.TypeOf(tlb.Bytes{}), reflect.TypeOf(tlb.FixedLengthText("")), reflect.TypeOf(tlb.VmCont{}), reflect.TypeOf(tlb.VmStkTuple{}),
+	reflect.TypeOf(tlb.VarUInteger16{}),
 }
 
 // a cell tree as data
@@ -818,17 +824,270 @@ func (t *c08Tree) fits() bool {
 	return true
 }
 
-func c08NoPanicTlb(c *Ctx, t reflect.Type, tree *c08Tree) {
-	defer func() {
-		if r := recover(); r != nil {
-			c.Fail("c08.tlbgo", sx.L(sx.Str(t.String()), tree.sx()), "tlb-panic", fmt.Sprintf("tlb.Unmarshal into %v panicked: %v", t, r))
+// ---- exploration of the hand-written TL-B decoders (no model): run in the
+// guarded child; oracles: no panic / crash / timeout, allocation linear in the
+// size of the input tree.
+
+// weight of a tree in bytes: data plus a fixed share per cell
+func (t *c08Tree) height() int {
+	h := 0
+	for _, r := range t.Refs {
+		if x := r.height(); x > h {
+			h = x
 		}
-	}()
+	}
+	return h + 1
+}
+
+func (t *c08Tree) weight() int {
+	w := 64 + (len(t.Bits)+7)/8
+	for _, r := range t.Refs {
+		w += r.weight()
+	}
+	return w
+}
+
+// measured on the unchanged tree (thorough tier seeds 1 and 2, all families incl.
+// directed): at most 13064 bytes for inputs of weight <= 256 and at most 13.2
+// bytes per byte of weight for inputs of weight >= 1024 (VmStack: after
+// subtracting the per-level copy); the bound keeps a safety factor > 4 on both
+const c08TlbSlope = 64
+const c08TlbIntercept = 65536
+
+func c08MemDelta(f func() error) (class string, alloc uint64) {
+	var m0, m1 runtime.MemStats
+	runtime.ReadMemStats(&m0)
+	err := f()
+	runtime.ReadMemStats(&m1)
+	class = "ok"
+	if err != nil {
+		class = "err"
+	}
+	return class, m1.TotalAlloc - m0.TotalAlloc
+}
+
+// c08.tlbgo: (type-index tree) -> ('ok|'err alloc), child only
+func execC08TlbGo(in sx.V) sx.V {
+	t := c08TlbTypes[in.List[0].I()]
+	cell := c08TreeOfSx(in.List[1]).cell()
 	v := reflect.New(t)
-	_ = tlb.Unmarshal(tree.cell(), v.Interface())
+	class, a := c08MemDelta(func() error { return tlb.Unmarshal(cell, v.Interface()) })
+	return sx.L(sx.A(class), sx.N(a))
+}
+
+// c08.vmtlgo: BOC bytes -> VmStack.UnmarshalTL(tl bytes) ('ok|'err alloc), child only
+func execC08VmTlGo(in sx.V) sx.V {
+	enc, _ := tl.Marshal(in.Bytes)
+	var s tlb.VmStack
+	class, a := c08MemDelta(func() error { return s.UnmarshalTL(bytes.NewReader(enc)) })
+	return sx.L(sx.A(class), sx.N(a))
 }
 
 var c08GoOnly int
+var c08Calib = map[string]float64{}
+var c08CalibSmall, c08CalibSlope float64
+
+// VmStack only: getStackListItems copies the tail of the list at every level,
+// 304 bytes per item (observation recorded with the property: quadratic in the
+// length of the chain of rest references, independent of the announced depth)
+func c08VmStackCopy(height int) int { return 320 * height * height }
+
+// once a decoder has produced this many failing inputs it is not explored
+// further (each failing case may cost a gigabyte allocation in the child)
+const c08MaxFailsPerType = 3
+
+var c08ExploreFails = map[string]int{}
+
+func c08Explore(c *Ctx, kind string, in sx.V, typeName string, weight int, extra int) {
+	if c08ExploreFails[typeName] >= c08MaxFailsPerType {
+		return
+	}
+	nf := len(c.fails)
+	defer func() {
+		if len(c.fails) > nf {
+			c08ExploreFails[typeName]++
+		}
+	}()
+	c08GoOnly++
+	out := guardedExec(kind, in, 10*time.Second)
+	s := out.String()
+	switch {
+	case strings.Contains(s, "'panic"):
+		c.Fail(kind, in, "tlb-panic-"+typeName, "decoding into "+typeName+" panicked")
+	case strings.Contains(s, "'crash"), strings.Contains(s, "'timeout"):
+		c.Fail(kind, in, "tlb-alloc-"+typeName, "decoding into "+typeName+" exhausted memory or time: "+s)
+	case out.K == sx.KL && len(out.List) == 2:
+		a := out.List[1].U64()
+		if ratio := float64(a) / float64(weight); ratio > c08Calib[typeName] {
+			c08Calib[typeName] = ratio
+		}
+		if net := float64(a) - float64(extra); net > 0 {
+			if weight <= 256 && net > c08CalibSmall {
+				c08CalibSmall = net
+			}
+			if weight >= 1024 && net/float64(weight) > c08CalibSlope {
+				c08CalibSlope = net / float64(weight)
+			}
+		}
+		if a > uint64(c08TlbSlope*weight+c08TlbIntercept+extra) {
+			c.Fail(kind, in, "tlb-alloc-"+typeName, fmt.Sprintf("decoding into %s allocated %d bytes for an input of weight %d bytes", typeName, a, weight))
+		}
+	default:
+		c.Fail(kind, in, "tlb-harness-"+typeName, "unexpected child answer "+s)
+	}
+}
+
+func c08ExploreTlb(c *Ctx, ti int, tree *c08Tree) {
+	if !tree.fits() {
+		return
+	}
+	extra := 0
+	if n := c08ShortName(c08TlbTypes[ti]); n == "VmStack" {
+		extra = c08VmStackCopy(tree.height())
+	}
+	c08Explore(c, "c08.tlbgo", sx.L(sx.Nat(ti), tree.sx()), c08ShortName(c08TlbTypes[ti]), tree.weight(), extra)
+}
+
+func c08ExploreVmTl(c *Ctx, tree *c08Tree) {
+	if !tree.fits() || tree.Kind != 0 {
+		return
+	}
+	b, err := tree.cell().ToBoc()
+	if err != nil {
+		return
+	}
+	c08Explore(c, "c08.vmtlgo", sx.Bytes(b), "VmStackTL", len(b), c08VmStackCopy(tree.height()))
+}
+
+func c08Chain(head []bool, item []bool, n int) *c08Tree {
+	// n cells after the root, each: item bits and a reference to the next
+	var next *c08Tree
+	for i := 0; i < n; i++ {
+		cl := &c08Tree{Bits: append([]bool{}, item...)}
+		if next != nil {
+			cl.Refs = []*c08Tree{next}
+		}
+		next = cl
+	}
+	root := &c08Tree{Bits: append(append([]bool{}, head...), item...)}
+	if next != nil {
+		root.Refs = []*c08Tree{next}
+	}
+	return root
+}
+
+var c08RePkg = regexp.MustCompile(`[A-Za-z0-9_.\-]+/`)
+
+// type name without package paths: Hashmap[tlb.Uint19,boc.Cell]
+func c08ShortName(t reflect.Type) string { return c08RePkg.ReplaceAllString(t.Name(), "") }
+
+// index of the first registered type whose short name is name or starts with name + "["
+func c08TypeIndex(name string) int {
+	for i, t := range c08TlbTypes {
+		if n := c08ShortName(t); n == name || strings.HasPrefix(n, name+"[") {
+			return i
+		}
+	}
+	return -1
+}
+
+// length / count / depth prefixes at their maximum with a short remainder
+func genC08Directed(c *Ctx) {
+	r := c.R.Fork(7000)
+	null := c08BitsOf(0, 8)                               // vm_stk_null#00
+	tiny := append(c08BitsOf(1, 8), c08BitsOf(42, 64)...) // vm_stk_tinyint#01
+	vs, vv := c08TypeIndex("VmStack"), c08TypeIndex("VmStackValue")
+	for _, depth := range []uint64{0, 1, 2, 3, 4, 255, 256, 65535, 65536, 200000, 0xFFFFFE, 0xFFFFFF} {
+		for chain := 0; chain <= 4; chain++ {
+			for _, item := range [][]bool{null, tiny, nil} {
+				t := c08Chain(c08BitsOf(depth, 24), item, chain)
+				c08ExploreTlb(c, vs, t)
+				c08ExploreVmTl(c, t)
+			}
+		}
+	}
+	// honest stacks of growing length (the per-level copy is quadratic in the length)
+	for _, n := range []int{1, 2, 8, 32, 128, c.Scale(256, 1000)} {
+		t := c08Chain(c08BitsOf(uint64(n), 24), tiny, n)
+		c08ExploreTlb(c, vs, t)
+		c08ExploreVmTl(c, t)
+	}
+	// tuples: vm_stk_tuple#07 len:(## 16) with few or no refs
+	for _, ln := range []uint64{0, 1, 2, 3, 255, 65535} {
+		for refs := 0; refs <= 2; refs++ {
+			t := &c08Tree{Bits: append(c08BitsOf(7, 8), c08BitsOf(ln, 16)...)}
+			for i := 0; i < refs; i++ {
+				t.Refs = append(t.Refs, &c08Tree{Bits: null})
+			}
+			c08ExploreTlb(c, vv, t)
+		}
+	}
+	// hashmaps: labels announcing more bits than the cell holds
+	labels := func(keyBits int) [][]bool {
+		w := 0
+		for (1 << uint(w)) <= keyBits {
+			w++
+		}
+		var out [][]bool
+		for _, n := range []int{keyBits, keyBits - 1, keyBits + 1, (1 << uint(w)) - 1, 0, 1} {
+			if n < 0 {
+				continue
+			}
+			long := append([]bool{true, false}, c08BitsOf(uint64(n), w)...)
+			same := append([]bool{true, true, true}, c08BitsOf(uint64(n), w)...)
+			short := []bool{false}
+			for i := 0; i < n && i < 1000; i++ {
+				short = append(short, true)
+			}
+			short = append(short, false)
+			for _, l := range [][]bool{long, same, short} {
+				for _, have := range []int{0, 1, n / 2, n} {
+					out = append(out, append(append([]bool{}, l...), c08RandBits(r, have)...))
+				}
+			}
+		}
+		return out
+	}
+	for _, hm := range []struct {
+		name string
+		key  int
+		e    bool
+	}{{"Hashmap", 19, false}, {"HashmapE", 32, true}, {"HashmapAugE", 256, true}} {
+		ti := c08TypeIndex(hm.name)
+		if ti < 0 {
+			continue
+		}
+		for _, l := range labels(hm.key) {
+			for refs := 0; refs <= 2; refs++ {
+				node := &c08Tree{Bits: l}
+				for i := 0; i < refs; i++ {
+					node.Refs = append(node.Refs, &c08Tree{Bits: c08RandBits(r, r.Intn(24))})
+				}
+				t := node
+				if hm.e {
+					t = &c08Tree{Bits: []bool{true}, Refs: []*c08Tree{node}}
+				}
+				c08ExploreTlb(c, ti, t)
+			}
+		}
+	}
+	// VarUInteger / snake / text lengths at their maximum with a short remainder
+	for _, name := range []string{"Grams", "CurrencyCollection", "VarUInteger16", "VarUInteger32", "SnakeData", "Text", "Bytes", "FixedLengthText", "Message", "Account", "Transaction", "StateInit", "VmCont", "VmStkTuple"} {
+		ti := c08TypeIndex(name)
+		if ti < 0 {
+			continue
+		}
+		for _, pre := range [][]bool{c08BitsOf(15, 4), c08BitsOf(31, 5), c08BitsOf(255, 8), c08BitsOf(0xffff, 16), c08BitsOf(0xffffff, 24), c08BitsOf(0xffffffff, 32), nil} {
+			for _, have := range []int{0, 1, 8, 64, 1023 - len(pre)} {
+				for chain := 0; chain <= 3; chain += 3 {
+					t := c08Chain(pre, c08RandBits(r, have/2), chain)
+					t.Bits = append(append([]bool{}, pre...), c08RandBits(r, have)...)
+					c08ExploreTlb(c, ti, t)
+				}
+			}
+		}
+	}
+}
 
 func genC08TLB(c *Ctx) {
 	for ti, t := range c08TlbTypes {
@@ -839,9 +1098,11 @@ func genC08TLB(c *Ctx) {
 				return
 			}
 			if d == nil {
-				// hand-written decoder: exploration support only
-				c08GoOnly++
-				c08NoPanicTlb(c, t, tree)
+				// hand-written decoder: exploration support only, in the guarded child
+				c08ExploreTlb(c, ti, tree)
+				if t.Name() == "VmStack" {
+					c08ExploreVmTl(c, tree)
+				}
 				return
 			}
 			in := sx.L(sx.B(!d.hasAny()), d.sx(), tree.sx())
@@ -850,13 +1111,13 @@ func genC08TLB(c *Ctx) {
 				c.Fail("c08.tlb", in, "tlb-panic", "tlb.Unmarshal panicked")
 			}
 		}
-		name := t.Name()
+		name := c08ShortName(t)
 		if d != nil {
 			c08TlbByDesc[d.sx().String()] = t
 		}
 		n := c.Scale(12, 80)
 		if d == nil {
-			n = c.Scale(60, 400)
+			n = c.Scale(12, 250)
 		}
 		for k := 0; k < n; k++ {
 			var base *c08Tree
@@ -1136,16 +1397,16 @@ func genC08Framing(c *Ctx) {
 			class = "damaged"
 		}
 		in := sx.Bytes(b)
-		fail("c08.vmstack", in, c.Emit("c08.vmstack", in, "vmstack|"+class))
-		fail("c08.methods", in, c.Emit("c08.methods", in, "methods|"+class))
-		fail("c08.accproof", in, c.Emit("c08.accproof", in, "accproof|"+class))
+		fail("c08.vmstack", in, c.EmitGuarded("c08.vmstack", in, "vmstack|"+class))
+		fail("c08.methods", in, c.EmitGuarded("c08.methods", in, "methods|"+class))
+		fail("c08.accproof", in, c.EmitGuarded("c08.accproof", in, "accproof|"+class))
 	}
 	for _, b := range [][]byte{{}, {0xb5, 0xee, 0x9c, 0x72, 0x01, 0x01, 0, 0, 0, 0}, c08Boc(nil, nil), c08Boc([]c08Cell{{}}, []int{0}), c08Boc([]c08Cell{{Refs: []int{1}}, {}}, []int{0})} {
 		in := sx.Bytes(b)
-		fail("c08.vmstack", in, c.Emit("c08.vmstack", in, "vmstack|directed"))
+		fail("c08.vmstack", in, c.EmitGuarded("c08.vmstack", in, "vmstack|directed"))
 		if len(b) > 0 {
-			fail("c08.methods", in, c.Emit("c08.methods", in, "methods|directed"))
-			fail("c08.accproof", in, c.Emit("c08.accproof", in, "accproof|directed"))
+			fail("c08.methods", in, c.EmitGuarded("c08.methods", in, "methods|directed"))
+			fail("c08.accproof", in, c.EmitGuarded("c08.accproof", in, "accproof|directed"))
 		}
 	}
 }
@@ -1158,10 +1419,20 @@ func min(a, b int) int {
 }
 
 func genC08(c *Ctx) {
+	genC08Directed(c) // first: the smallest witnesses are reported before the per-type cap is reached
 	genC08TL(c)
 	genC08TLB(c)
 	genC08Framing(c)
 	if dir := os.Getenv("VERIF_C08_NOTE"); dir != "" {
-		_ = os.WriteFile(filepath.Join(dir, "c08_go_only.txt"), []byte(strconv.Itoa(c08GoOnly)), 0o644)
+		note := strconv.Itoa(c08GoOnly) + fmt.Sprintf("\nmax alloc (weight<=256) %.0f  max alloc/weight (weight>=1024) %.1f\n", c08CalibSmall, c08CalibSlope)
+		var ks []string
+		for k := range c08Calib {
+			ks = append(ks, k)
+		}
+		sort.Strings(ks)
+		for _, k := range ks {
+			note += fmt.Sprintf("%s %.1f\n", k, c08Calib[k])
+		}
+		_ = os.WriteFile(filepath.Join(dir, "c08_go_only.txt"), []byte(note), 0o644)
 	}
 }
